@@ -97,14 +97,14 @@ class Arm(Robot):
             self.original_joint_axes = joint_axes
     # Initialization
         self.screw_list_body = np.zeros((6, self.num_dof))
-        self.initialize(base_pos_global, screw_list, end_effector_home, joint_poses_home)
+        # Backup first: initialize() re-expresses the screws it is given in place
+        self.original_screw_list = screw_list.copy()
+        self.initialize(base_pos_global, screw_list.copy(), end_effector_home, joint_poses_home)
 
         for i in range(0, self.num_dof):
             self.screw_list_body[:, i] = (
                 fmr.Adjoint(self._end_effector_home.inv().gTM()) @
                 self.screw_list[:, i])
-    # Backups
-        self.original_screw_list = screw_list.copy()
         self.FK(np.zeros((self.num_dof)))
 
     def initialize(self, base_pos_global : 'tm', screw_list : 'np.ndarray[float]', 
